@@ -23,6 +23,7 @@ META = {
     "required_counters": ["short_write_plans", "sender_schedules", "receiver_schedules", "schedules_with_mid_frame_switch"],
     "assumptions": [],
 }
+META["claim"] += " " + "Also: the dispatcher object's send path under short writes; receivers calling recv_frame() themselves; a slow transport (every write takes virtual time) with a socket timeout shorter than a frame and three senders; two- and three-preemption sampling at line granularity."
 
 
 # ---------------------------------------------------------------------------
